@@ -201,6 +201,63 @@ func init() {
 		}
 		return r
 	}
+	// strings.EqualFold over ASCII data (summary of the standard library's
+	// fast path); any byte that may be >= 0x80 is refused unless concrete.
+	reg("strings.EqualFold", func(p *Path, _ *frame, a []Value) Value {
+		xs, xok := p.concreteString(a[0])
+		ys, yok := p.concreteString(a[1])
+		if xok && yok {
+			return p.ctx.Bool(strings.EqualFold(xs, ys))
+		}
+		x, y := p.toSymStr(a[0]), p.toSymStr(a[1])
+		c := p.ctx
+		high := c.F
+		for _, b := range append(append([]*Term{}, x...), y...) {
+			high = c.Or(high, c.Ule(c.BV(0x80, 8), b))
+		}
+		if p.branch(high) {
+			panic(unsupported{"strings.EqualFold on possibly non-ASCII symbolic data"})
+		}
+		if len(x) != len(y) {
+			return c.F
+		}
+		r := c.T
+		for i := range x {
+			lx, ly := c.Bin(OBor, x[i], c.BV(0x20, 8)), c.Bin(OBor, y[i], c.BV(0x20, 8))
+			letter := c.And(c.Ule(c.BV('a', 8), lx), c.Ule(lx, c.BV('z', 8)))
+			r = c.And(r, c.Or(c.Eq(x[i], y[i]), c.And(letter, c.Eq(lx, ly))))
+		}
+		return r
+	})
+	// byte-order loads as concatenations (the source's shift-and-or form is
+	// equivalent; this form lets a value written with Put* and read back collapse to itself)
+	for _, bo := range []struct {
+		recv string
+		big  bool
+	}{{"(encoding/binary.littleEndian)", false}, {"(encoding/binary.bigEndian)", true}} {
+		for _, n := range []int{2, 4, 8} {
+			n, big := n, bo.big
+			reg(fmt.Sprintf("%s.Uint%d", bo.recv, n*8), func(p *Path, _ *frame, a []Value) Value {
+				b := p.sliceTerms(a[1])
+				if len(b) < n {
+					p.goPanicRuntime("index out of range [" + fmt.Sprint(n-1) + "] with length " + fmt.Sprint(len(b)))
+				}
+				var r *Term
+				for i := 0; i < n; i++ { // from the least significant byte up
+					x := b[i]
+					if big {
+						x = b[n-1-i]
+					}
+					if r == nil {
+						r = x
+					} else {
+						r = p.ctx.Concat(x, r)
+					}
+				}
+				return r
+			})
+		}
+	}
 	reg("internal/bytealg.IndexString", strIndex)
 	reg("internal/stringslite.Index", strIndex)
 	reg("strings.Index", strIndex)
@@ -560,7 +617,7 @@ func init() {
 		return func(p *Path, _ *frame, a []Value) Value {
 			x := p.asTerm(a[0], "bits.Len")
 			c := p.ctx
-			lo, hi := urange(x, 0)
+			lo, hi := urangeB(x, 0, p.lookBounds)
 			// the result is at least the bit length of the lower bound
 			start := uint8(bits.Len64(lo))
 			r := c.BV(uint64(start), 64)
@@ -571,6 +628,18 @@ func init() {
 			return r
 		}
 	}
+	// vtprotobuf's varint size, (bits.Len64(x|1)+6)/7, summarised as a case split
+	// on the seven-bit class of x: each path has a concrete wire layout and
+	// learns the bounds of x, which decide EncodeVarint's loop without the solver.
+	reg("github.com/planetscale/vtprotobuf/protohelpers.SizeOfVarint", func(p *Path, _ *frame, a []Value) Value {
+		x := p.asTerm(a[0], "SizeOfVarint")
+		for k := uint(1); k < 10; k++ {
+			if p.branch(p.ctx.Ult(x, p.ctx.BV(1<<(7*k), 64))) {
+				return p.ctx.BV(uint64(k), 64)
+			}
+		}
+		return p.ctx.BV(10, 64)
+	})
 	reg("math/bits.Len64", lenN(64))
 	reg("math/bits.Len32", lenN(32))
 	reg("math/bits.Len16", lenN(16))
